@@ -467,6 +467,9 @@ def collision_cases(chk, root):
     cases = [
         ('two inputs of one base name', {'d1/x.prophy': 'struct A { u8 a; };\n', 'd2/x.prophy': 'struct B { u64 b; };\n'}, ['d1/x.prophy', 'd2/x.prophy'],
          ['--python_out', '@O', '--cpp_full_out', '@O']),
+        ('an input of the base name of a file included from elsewhere',
+         {'a.prophy': '#include "b.prophy"\nstruct A { B b; };\n', 'b.prophy': 'struct B { u8 b; };\n', 'other/b.prophy': 'struct Other { u64 o; };\n'},
+         ['a.prophy', 'other/b.prophy'], ['--python_out', '@O']),
         ('one input the C++ full generator refuses', {'good.prophy': 'struct Good { u8 a; };\n', 'two.prophy': 'struct Two { u8 n; u8 a<@n>; u16 b<@n>; };\n'},
          ['good.prophy', 'two.prophy'], ['--python_out', '@O', '--cpp_full_out', '@O']),
     ]
@@ -488,7 +491,7 @@ def collision_cases(chk, root):
         if results[0] != results[1]:
             chk.property_violation(casej, {'what': 'the two command-line orders of the same inputs leave different outputs',
                                            'first': [results[0][0], results[0][2]], 'reversed': [results[1][0], results[1][2]]})
-        elif results[0][0] == 0 and kind == 'two inputs of one base name':
+        elif results[0][0] == 0 and kind in ('two inputs of one base name', 'an input of the base name of a file included from elsewhere'):
             chk.property_violation(casej, {'what': 'two inputs of one base name were compiled into one set of files: one input left no output',
                                            'files': results[0][2]})
 
